@@ -10,13 +10,10 @@ def gen(rng, tier):
     cases = []
     N = 400 if tier == "quick" else 6000
     for _ in range(N):
-        G, fam = common.random_connected_graph(rng, 1, 6 if tier == "quick" else 8)
+        G, fam = common.random_connected_graph(rng, 1, 6 if tier == "quick" else 8, large_ok=True)
         D = common.random_divisor(rng, G)
         if rng.random() < 0.12 and G["edges"]:
-            # the same game scaled beyond 2^53 (bundles of M parallel edges, chip counts of that size, a small offset): exact integers are needed
-            M = 2 ** rng.choice([54, 60, 62, 64, 70]) + rng.choice([0, 1, 1])
-            G = dict(G); G["edges"] = [[a, b, k * M] for a, b, k in G["edges"]]
-            D = [M * x + rng.randint(-2, 2) for x in D]; fam = fam + "*2^k"
+            G, D = common.scale_game(rng, G, D); fam = fam + "*2^k"
         cases.append({"G": G, "D": D, "fam": fam, "s": rng.randrange(1 << 30)})
     if tier == "thorough":
         import itertools
